@@ -212,8 +212,37 @@ Full statement (Appendix E):
   `(∀ a ∈ (sendHistory lvl cfg t ch hist st).attempts, ¬a.after303 → payload a = payload (first attempt))
      ∨ (sendHistory …).result = .error .unrewindableBody`   for every body, level and history.
 It does NOT hold of the code as it stands; the four witnesses below are each a history whose call
-succeeds (or ends in a bare ValueError) while a re-sent body is empty.
+succeeds (or ends in a bare ValueError) while a re-sent body is empty.  What holds is
+`C11_resend_identical_or_unrewindable_partial`.
 -/
+/-- the hypothesis under which re-sending works: the body is `None` / bytes / str / a buffer / a
+re-iterable iterable, or — at pool level — a file with working `seek()` and `tell()` -/
+def c11Rewindable (lvl : Level) (body : Body) : Prop :=
+  Stable body ∨ (lvl = .pool ∧ ∃ f, body = .file f ∧ f.seek = .ok ∧ f.tell = .ok)
+
+/-- For **every** attempt history: if the body is rewindable (and, for a file body, the history
+contains no 303 — see `C11_resend_pool_303_witness`), every request written before a 303 is
+byte-identical to the first one (so in particular its de-framed payload is), and the call can only
+fail with the error of sending a request, never because of re-positioning the body. -/
+theorem C11_resend_identical_or_unrewindable_partial (lvl : Level) (cfg : Cfg) (target : Str) (chunked : Bool)
+    (meth : Str) (hs : List (Str × Str)) (body : Body) (hist : List Outcome)
+    (hr : c11Rewindable lvl body) (h303 : ¬ Stable body → Outcome.redirect303 ∉ hist) :
+    (∀ a ∈ (sendHistory lvl cfg target chunked hist ⟨meth, hs, body, .none, false⟩).attempts,
+        a.after303 = false → a.wire = (request cfg meth target hs body chunked).sent.written) ∧
+    ((sendHistory lvl cfg target chunked hist ⟨meth, hs, body, .none, false⟩).result = .ok () ∨
+     ∃ e m h b, (sendHistory lvl cfg target chunked hist ⟨meth, hs, body, .none, false⟩).result = .error e ∧
+       (request cfg m target h b chunked).sent.err = some e) := by
+  have hinv : Inv lvl body body .none := by
+    rcases hr with hst | ⟨hl, f, rfl, hsk, htl⟩
+    · exact Or.inl ⟨hst, rfl, rfl⟩
+    · exact Or.inr ⟨hl, f, f, rfl, hsk, htl, rfl, ⟨rfl, rfl, rfl, rfl⟩, Or.inl ⟨rfl, rfl⟩⟩
+  exact sendHistory_inv lvl cfg target chunked meth hs body hist h303 body .none hinv
+
+example : c11Rewindable .pool (.file ⟨[1, 2, 3], 1, .ok, .ok, false⟩) := Or.inr ⟨rfl, _, rfl, rfl, rfl⟩
+example : c11Rewindable .manager (.iter [.bytes [1], .str []] false) := Or.inl rfl
+example : ¬ Stable (.file ⟨[1, 2, 3], 1, .ok, .ok, false⟩) → Outcome.redirect303 ∉ [Outcome.redirectKeep, .readErr, .ok] := by
+  intro _; decide
+
 theorem C11_resend_oneshot_witness :
     let r := sendHistory .pool c11cfg (lit "/p") false [.retryStatus, .ok] (c11St0 (lit "POST") (.iter [.bytes [97, 98]] true))
     r.result = .ok () ∧ r.attempts.map c11PayloadOf = [some (.chunked, [97, 98]), some (.chunked, [])] := by
